@@ -163,3 +163,23 @@ def binflex_helper(self, case_left, case_right, new_mappings, base_mappings, use
     ensures("earlier_maps_kept", nitems(new_mappings) >= old(nitems(new_mappings)))
     ensures("one_side_unmatched_adds_nothing", implies(nitems(case_left) == 0 or nitems(case_right) == 0,
                                                        same_seq(items(new_mappings), old(items(new_mappings)))))
+
+
+# ---- single binding of _name_ placeholders ---------------------------------------------------------------------
+SEQUENCE_VIEW = {AstSymbolList: 'my_list'}
+
+
+@target("pedal.cait.ast_map:AstSymbolList.__init__")
+def AstSymbolList__init__(self):
+    requires(instance_of(self, AstSymbolList))
+    modifies(attrs(self))
+    raises_nothing()
+    ensures(is_list(self.my_list) and nitems(self.my_list) == 0 and fresh(self.my_list))
+
+
+@target("pedal.cait.ast_map:AstSymbolList.append")
+def AstSymbolList_append(self, item):
+    requires(instance_of(self, AstSymbolList) and is_list(self.my_list))
+    modifies(items(self.my_list))
+    raises_nothing()
+    ensures(same_seq(items(self.my_list), old(items(self.my_list)) + [item]))
